@@ -2,6 +2,7 @@ SPECIFICATION Spec
 CONSTANTS
  MaxSteps = 1
  VBIN = {0, 3}
+ VXD = {0, 1, 3}
  VA = {0, 1, 3}
  VSD = {0, 3}
  ProvA = {"none", "ovr"}
